@@ -379,6 +379,20 @@ def _judge_table(model, m, fn):
             return to_rat(f["base"], npar) ** f["exponent"]
         if v.cls == "Call" and len(f["parameters"]) == 2 and isinstance(
                 f["function"], Obj) and f["function"].fields.get("name") == \
+                "copysign" and isinstance(f["parameters"][0], Obj) and \
+                f["parameters"][0].cls == "Call":
+            # copysign(sign(u), v): magnitude 1, the sign of v
+            inner = f["parameters"][0]
+            try:
+                mag = to_rat(inner, npar)
+            except Unsupported:
+                mag = None
+            if mag is not None and repr(mag).count("sign(") == 1:
+                return to_rat(Obj("Call", {
+                    "function": f["function"],
+                    "parameters": (1, f["parameters"][1])}), npar)
+        if v.cls == "Call" and len(f["parameters"]) == 2 and isinstance(
+                f["function"], Obj) and f["function"].fields.get("name") == \
                 "copysign" and f["parameters"][0] == 1:
             arg = f["parameters"][1]
             if isinstance(arg, Obj) and arg.cls == "Variable" and \
@@ -1177,7 +1191,8 @@ def _linear_rules(ctx, model, dm):
            "map_constant does not return 0")
     # if
     mem = model.lookup(dm, "map_if")
-    saw_raise = saw_ret = False
+    saw_raise = saw_ret = ungated_ret = False
+    n_ret_if = 0
     okr = False
     for ps in handler_summaries(model, nt.get("If"), mem.node):
         gate = None
@@ -1187,13 +1202,20 @@ def _linear_rules(ctx, model, dm):
                     v[3][0] == ("const", "discontinuous"):
                 gate = pol if v[1] == ("NotEq",) else (not pol)
         if ps.term == "raise":
-            saw_raise = gate is True
+            saw_raise = saw_raise or gate is True
         elif ps.term == "return":
-            saw_ret = gate is False
+            n_ret_if += 1
+            # (every way to a result has established that discontinuities
+            # are allowed: no other test may open the gate)
+            if gate is False:
+                saw_ret = True
+            else:
+                ungated_ret = True
             rv = ps.retval
             okr = rv[0] == "ctor" and rv[2] == (
                 ("field", "condition"), ("rec", ("field", "then"), True, ()),
                 ("rec", ("field", "else_"), True, ()))
+    saw_ret = saw_ret and not ungated_ret
     ctx.ob("P/map_if/gated", saw_raise and saw_ret, where(mem),
            "conditionals are refused unless discontinuities are allowed"
            if saw_raise and saw_ret else
